@@ -2,8 +2,9 @@
 its estimate.  Proof: coq/Props/C19.v (user constraints are part of the
 modelled input: bounds on cached fields, checked per stop or per vehicle,
 estimate always 'not violated'; engine invariant + all-or-nothing).  Tie:
-real ModelConstraint implementations in the harness vs the model on histories
-of checked moves; oracle: the user predicate on every snapshot and on every
+real ModelConstraint implementations in the harness (one-level and two-level: one
+object with a per-stop and a per-vehicle check) vs the model on histories of moves
+built without the estimates; oracle: the user predicate on every snapshot and on every
 solution of the real solver."""
 import engine_props
 
